@@ -4,8 +4,6 @@
 
 include!("../../generated/generated_gpos.rs");
 
-use std::collections::HashSet;
-
 //use super::layout::value_record::ValueRecord;
 use super::{
     layout::{
@@ -194,11 +192,15 @@ impl MarkLigPosFormat1 {
 
 impl MarkArray {
     fn class_count(&self) -> u16 {
+        // Classes are numbered from zero and need not all be used, so the
+        // count is one more than the largest class, not the number of
+        // distinct classes: the anchor arrays of the base / ligature / mark2
+        // records are indexed by class.
         self.mark_records
             .iter()
             .map(|rec| rec.mark_class)
-            .collect::<HashSet<_>>()
-            .len() as u16
+            .max()
+            .map_or(0, |max| max.saturating_add(1))
     }
 }
 
